@@ -433,7 +433,7 @@ func (k *checker) check(sp spec, tag string) {
 			if have {
 				if rd.unprocessedLen() >= maxU { // this Add runs process
 					triggers++
-					watch = triggers <= 2 || n <= 4000 || k.r.Chance(0.05) || n-i <= maxU+1
+					watch = triggers <= 2 || n <= 2500 || k.r.Chance(0.02) || n-i <= maxU+1
 				} else if i == plain {
 					watch = true
 				}
@@ -709,7 +709,7 @@ func runC11(c *run.Ctx, s *kit.Summary) {
 	s.Rule = "latency multisets of 1..20000 (quick) / 1..100000 (thorough) samples, sizes biased to 1..5, ≤100, around the first compression passes (800/801, 1600/1601) and the maximum; " +
 		"uniform (incl. narrow ranges with many ties), log-normal, constant, few-valued (2..5 values), bimodal with gaps of 3..12 orders of magnitude (half of them with the mode boundary within ±3% of a reported percentile), " +
 		"3% with zero latencies; arrival orders random / sorted / reverse-sorted; per set ~130 quantile arguments (Close's four, the HDR ladder, 0, 1, segment borders ± 1 ulp, tails, out of range, NaN); " +
-		"compression pass: on vegeta's own estimator the Adds that trigger process (all for n ≤ 4000, else the first two, 5% and the last), one plain Add and the process() at Close; plus stand-alone digests with compression 1..20 (tiny buffers, incl. the len(processed) > maxProcessed trigger, weights 1..4, NaN samples) with EVERY Add checked; " +
+		"compression pass: on vegeta's own estimator the Adds that trigger process (all for n ≤ 2500, else the first two, 2% and the last), one plain Add and the process() at Close; plus stand-alone digests with compression 1..20 (tiny buffers, incl. the len(processed) > maxProcessed trigger, weights 1..4, NaN samples) with EVERY Add checked; " +
 		"non-trivial = distinct data set with ≥2 samples and ≥2 distinct values"
 	k := &checker{c: c, s: s, r: r, worst: map[string]float64{}, mc: newMergeChecker(),
 		qst: &kit.Stream{Name: "c11.quantile"}, cst: &kit.Stream{Name: "c11.cum"}, clst: &kit.Stream{Name: "c11.close"}}
@@ -737,7 +737,7 @@ func runC11(c *run.Ctx, s *kit.Summary) {
 		k.check(genSpec(r, maxN), "g")
 	}
 	// stand-alone digests with tiny buffers: every Add and the final process against the model
-	for i := 0; i < c.N(150, 3000); i++ {
+	for i := 0; i < c.N(150, 1500); i++ {
 		directDigest(r, s, k.mc, "d")
 		k.mc.flush(c.Driver, s, false)
 	}
